@@ -31,7 +31,7 @@ COMPONENTS = {"real": ["FutureChain", "Future subclasses", "Exchange.__getitem__
               "harness": ["calendar-free lead model", "independent ledger"], "stub": []}
 PROBE_FLOORS = {"roll_executed": 122, "step_exactly_on_last_trading_instant": 50, "short_position_rolled": 55,
                 "month_offset_positive": 40, "roll_with_spread": 63, "expiry_passed_flat": 100, "explicit_contract_list": 31,
-                "foreign_clock_write": 31, "single_event_days_with_roll": 25, "roll_of_position_below_threshold": 25}
+                "foreign_clock_write": 31, "single_event_days_with_roll": 25, "roll_of_position_below_threshold": 25, "roll_of_position_worth_less_than_the_fee": 5}
 
 
 def month_add(y, m, k):
@@ -164,6 +164,13 @@ def generate(rng, i, force=None):
         "folds": None, "markov": False, "warmup_s": None, "episode_length": None, "sampling_span": None,
         "ts_type": rng.choice(["datetime", "timestamp"]), "state": {"type": "rec", "feature": False, "k": 2},
     }
+    small = rng.random() < 0.12
+    if small:
+        # a small account paying a fixed fee per trade, with a position trimmed to less than that fee before the roll:
+        # closing the old lead still has to happen (costs are no reason to stay in a contract that stops trading)
+        env["cash"] = 1000.0
+        env["fees"]["fixed"] = 1.0
+        env["space"]["margin"] = rng.choice([0.05, 0.125])
     script = [{"op": "reset", "env": 0, "fold": None, "np_seed": rng.randrange(2 ** 31)}]
     side = rng.choice([1, 1, -1])
     w = side * rng.choice([0.3, 0.5, 0.8])
@@ -178,13 +185,15 @@ def generate(rng, i, force=None):
             # a position trimmed to less than the rebalancing threshold: when the chain rolls, closing the
             # old lead is a liquidation (exempt from the threshold) while opening the new one is below it
             w = rng.choice([1, -1]) * env["space"]["margin"] * rng.choice([0.3, 0.6, 0.9])
+            if small:
+                w = rng.choice([1, -1]) * rng.choice([0.0005, 0.0008])      # worth less than the fixed fee
         a = [w] + ([rng.choice([0.0, 0.1])] if two else [])
         if rng.random() < p_foreign:
             # F7: somebody else moves the shared clock (to an instant inside the span)
             script.append({"op": "clock", "t": core.iso(rng.choice(grid))})
         script.append({"op": "step", "env": 0, "action": a})
     return {"kind": "epi", "envs": [env], "clock0": core.iso(grid[0]), "script": script, "prng": rng.randrange(2 ** 31),
-            "meta": {"cls": cls, "offset": offset, "style": style, "tod": tod, "explicit": explicit, "nmem": len(mem), "y0m0": [y0, m0], "lead_only": lead_only}}
+            "meta": {"cls": cls, "offset": offset, "style": style, "tod": tod, "explicit": explicit, "nmem": len(mem), "y0m0": [y0, m0], "lead_only": lead_only, "small": small}}
 
 
 def to_dt(x):
@@ -328,6 +337,8 @@ def execute(scenario):
                         probe("roll_with_spread")
                     if thr > 0 and nlv_pre and abs(old_pos * mult * bid / nlv_pre) < thr:
                         probe("roll_of_position_below_threshold")
+                    if env_spec["fees"].get("fixed") and abs(old_pos * mult * bid) < env_spec["fees"]["fixed"]:
+                        probe("roll_of_position_worth_less_than_the_fee")
             last_lead = j
             if pos > 0:
                 sides.add("L")
